@@ -85,8 +85,12 @@ def main(tier, seed):
                 res.append(('objective-name-differs', '%r expected %r' % (o['name'], exp_obj[pos]))); break
         # derivation: a created name extends the name of an original item
         bases = set(exp_var + exp_dv + exp_con + exp_obj)
+        for sfx in m.suffixes:      # an SOS set given by suffixes has no named source item: it is named after its group number
+            if sfx['name'] == 'sosno':
+                for g in set(sfx['values'].values()):
+                    bases.add('SOS%d_%d_' % (1 if g > 0 else 2, g))
         def derived(n):
-            return n in bases or any(n.startswith(b + '_') for b in bases)
+            return n in bases or any(n.startswith(b + '_') or (b.startswith('SOS') and n.startswith(b)) for b in bases)
         created = [n for n in vnames[nv:] if n] + [c['name'] for c in tr.cons if c['name']]
         info['created'] = len(created)
         und = [n for n in created if not derived(n)]
